@@ -347,7 +347,8 @@ TreesOver(S, maxArity, unary, pat) ==
   IN plain \cup (IF unary /\ Cardinality(S) <= 2
                    THEN {Node(R(1), -1, <<t>>) : t \in plain}
                         \* and a chain of two single-child nodes (lengths 1 and 2)
-                        \cup {Node(R(1), -1, <<Node(R(2), -1, <<t>>)>>) : t \in plain}
+                        \cup (IF Cardinality(S) = 1
+                                THEN {Node(R(1), -1, <<Node(R(2), -1, <<t>>)>>) : t \in plain} ELSE {})
                    ELSE {})
 
 \* all rooted binary trees over S with every branch length taken from L (integers)
